@@ -196,7 +196,7 @@ def run(ctx):
         ctx.check("equal-lengths", col_lengths_ok(t), "%s/columns-of-unequal-length" % tname, "columns of unequal length after construction", wit0, None)
         for step in range(r.randint(1, maxops)):
             n = len(model)
-            ops = ["slice", "mask", "fancy", "concat", "iterate", "tolist_roundtrip", "replace", "todict", "pandas", "len"]
+            ops = ["slice", "mask", "fancy", "concat", "iterate", "tolist_roundtrip", "replace", "todict", "pandas", "len", "replace_wrong_length"]
             if n:
                 ops += ["int", "int"]
             if any(k in ("int", "float") for _, k in spec):
@@ -227,12 +227,28 @@ def run(ctx):
                     history.append(["slice", [sl.start, sl.stop, sl.step]])
                 elif op == "mask":
                     mk = [r.random() < 0.5 for _ in range(n)]
-                    res, m2 = t[np.array(mk, dtype=bool)], [x for x, k in zip(model, mk) if k]
-                    history.append(["mask", mk])
+                    as_list = r.random() < 0.3 and n > 0        # a Python list of bools (the docstrings' form) or a NumPy array
+                    res, m2 = t[mk if as_list else np.array(mk, dtype=bool)], [x for x, k in zip(model, mk) if k]
+                    history.append(["mask", mk, "list" if as_list else "array"])
                 elif op == "fancy":
                     idx = [r.randint(-n, n - 1) for _ in range(r.randint(0, 4))] if n else []
-                    res, m2 = t[np.array(idx, dtype=int)], [model[i] for i in idx]
-                    history.append(["fancy", idx])
+                    as_list = r.random() < 0.3 and len(idx) > 0
+                    res, m2 = t[idx if as_list else np.array(idx, dtype=int)], [model[i] for i in idx]
+                    history.append(["fancy", idx, "list" if as_list else "array"])
+                elif op == "replace_wrong_length":
+                    # a replacement column of another length must be refused: every table has columns of equal length
+                    cand = [(f, k) for f, k in spec if k in ("int", "float")]
+                    if not cand or len(spec) < 2:       # with a single column any length gives a consistent table
+                        continue
+                    fn, kind = r.choice(cand)
+                    wrong = n + r.choice([1, 2]) if (n == 0 or r.random() < 0.5) else n - 1
+                    try:
+                        bad = bnp.replace(t, **{fn: np.zeros(wrong, dtype=int if kind == "int" else float)})
+                    except Exception:
+                        ctx.judged(opkey, nt)
+                        continue
+                    ctx.check(opkey, col_lengths_ok(bad), "%s/accepted-a-column-of-another-length" % opkey, "bnp.replace accepted a column of %d values for a table of %d rows" % (wrong, n), dict(wit, field=fn, wrong_length=wrong), nt)
+                    continue
                 elif op == "concat":
                     rows2 = [gen_row(r, spec) for _ in range(r.choice([0, 1, 2]))]
                     u = build(cls, spec, rows2)
